@@ -154,6 +154,10 @@ def run(model, tier="quick"):
                   ["check_option_exercise"], opaque=["_is_open"])
     effect_rule(model, res)
     res.floor("obligations", len(res.obligations), 11)
+    from ..rules.fresh import fresh_rule
+    if "R-FRESH" not in res.rules:
+        res.rules.append("R-FRESH")
+    fresh_rule(model, res, scope=('demeter/deribit/',))
     res.assumptions = ["the delivery fee rate constant (0.00015) is checked under C15's R-CONST",
                        "data gaps at expiry use the fallback instrument built from the price series (not decided)"]
     res.not_decided = ["behaviour when the expiring instrument is missing from the book (fallback instrument, data dependent)"]
